@@ -192,6 +192,11 @@ def _objects():
     for i, v in enumerate(vals):
         objs.append({"k": v})
         objs.append({"alg": "HS256", "x": v, "é\u0000": [v, {"n": v}]})
+    # every kind of code point a JSON text can name (what json_b64decode can return, json_b64encode must be able to write): unpaired
+    # surrogates (\\ud83d alone is valid JSON), a pair in the wrong order, astral characters, noncharacters, line separators
+    for t in ["\ud83d", "\ude00", "\ude00\ud83d", "a\ud800b", "\U0001F600", "\uffff", "\u2028\u2029", "\x7f\x80", "\ufeffx"]:
+        objs.append({"kid": t})
+        objs.append({"alg": "HS256", t: [t, {t: t}]})
     return objs
 
 
